@@ -268,7 +268,10 @@ def produce(case, target, omit_target=False, ini_target=None):
     ini = ini_for(case, None if omit_target else (ini_target or target))
     if route == 'cfg':
         return R.write_tabulation(R.config_read(ini))
-    res = R.potable(ini, binary=binary, prefill=True)     # OUTPUT_FILE exists already and is longer than the new table
+    # OUTPUT_FILE exists already and is longer than the new table; every third grid: it is a symbolic link to such a file
+    res = R.potable(ini, binary=binary, prefill='symlink' if nr % 3 == 0 else True)
+    if getattr(res, 'link_replaced', False) and res.status == 0 and res.out_bytes == R.PREFILL:
+        raise RuntimeError('OUTPUT_FILE was a symbolic link: potable replaced the link and left the file it pointed to unchanged')
     if res.exc is not None:
         raise res.exc
     if res.status != 0:
